@@ -2,7 +2,8 @@
   Tie by translation, property C20: the bodies of `Process::Arguments::nextChar`, `Process::Arguments::read` and the
   constructor of `Arguments`, translated by tools/gen_args.py from the CURRENT src/Process.cpp / include/nstd/Process.hpp
   into Nstd/Generated/ArgsCode.lean (C++ subset -> Lean over the checked-memory semantics of CSem.lean), ARE the
-  functions of the hand-written model (Model.lean) that the theorems of Props.lean speak about -- on every state of the
+  functions of the hand-written model (Model.lean) that the theorems of Props.lean speak about (and the translated
+  `Process::Private::splitCommandLine` delivers what the model's does on every terminated command line buffer) -- on every state of the
   translated code that represents a model state, for every option table and every argv.  A change of one of these C++
   bodies changes the generated definitions and these proofs fail.
 
@@ -11,6 +12,7 @@
   and option name, every byte of an argv word is < 256 (`Bytes`; needed where the code narrows `int` to `char`).
 -/
 import Nstd.Args.LemmasCode
+import Nstd.Args.LemmasCodeSplit
 import Nstd.Args.Props
 
 namespace Nstd.Args.Tie
@@ -120,5 +122,20 @@ theorem translated_read_sequence_eq_getopt (opts : List SOpt) (hok : OptsOk opts
   simp only [St.init] at h ⊢
   rw [h]
   exact read_sequence_eq_getopt opts hok prog ws hws n hn
+
+/-- `splitCommandLine(commandLine, command)` as translated, on EVERY command line buffer (the NUL-free string `str`, its
+    terminator, anything behind it), whatever `command` and the locals hold before and for every fuel above the length:
+    it returns, and the words it appended to `command` are the words the model's `splitCommandLine` delivers, which are
+    the reference tokenizer's (`split_spec`) -/
+theorem translated_split_eq_model (str junk : List Nat) (hnz : ∀ c ∈ str, c ≠ 0) (f : Nat) (hf : str.length < f)
+    (base : Gen.SS) (argv : List Buf) (opts : List Opt) :
+    ∃ s' : Gen.SS, Gen.split ⟨argv, opts, str ++ 0 :: junk⟩ f base = some (.ret () s') ∧
+      splitCommandLine (str ++ 0 :: junk) = .done (tokenize str) ∧ s'.command = base.command ++ tokenize str := by
+  obtain ⟨s', h1, h2⟩ := split_tok ⟨argv, opts, str ++ 0 :: junk⟩ str junk rfl hnz f hf base
+  exact ⟨s', h1, splitCommandLine_spec str junk hnz, h2⟩
+
+-- a concrete run of the translated tokenizer: `a "b \"c\d"e  f` -> a, `b "c\de`, empty word, f
+example : (match Gen.split ⟨[], [], [97, 32, 34, 98, 32, 92, 34, 99, 92, 100, 34, 101, 32, 32, 102, 0]⟩ 16 Gen.SS.zero with
+    | some (.ret _ s) => some s.command | _ => none) = some [[97], [98, 32, 34, 99, 92, 100, 101], [], [102]] := by decide
 
 end Nstd.Args.Tie
